@@ -138,11 +138,28 @@ func c05Reordered(name string, base *c05Base, extraName string, extraData []byte
 	return &c05Base{name: name, version: base.version, file: file, ref: ref}
 }
 
+// c05Polyglot: a b2 bundle whose responses section consists of ONE response item (no enclosing array head), the
+// index entry pointing at (0, section length): the section reads as an array of two byte strings and as one
+// response at offset 0.  The repository's reader takes it; offset 0 is otherwise never a response boundary, so a
+// reader that invents offset 0 for a malformed location is only visible here.
+func c05Polyglot() *c05Base {
+	e := c05Ex{url: "https://ex.test/p", status: 200, headers: [][2]string{{"content-type", "text/plain"}}, body: []byte("polyglot")}
+	r := c05Response(e)
+	index := refcbor.MustMap(refcbor.KV{K: refcbor.EncText(e.url), V: refcbor.EncArray(refcbor.EncUint(0), refcbor.EncUint(uint64(len(r))))})
+	prefix := append(refcbor.EncBytes([]byte{0xf0, 0x9f, 0x8c, 0x90, 0xf0, 0x9f, 0x93, 0xa6}), refcbor.EncBytes([]byte("b2\x00\x00"))...)
+	file := refbx.Rebuild("b2", prefix, []string{"index", "responses"}, [][]byte{index, r})
+	ref, err := refbx.Extract(file)
+	if err != nil {
+		panic("c05: polyglot base does not extract: " + err.Error())
+	}
+	return &c05Base{name: "b2-response-at-0", version: "b2", file: file, ref: ref}
+}
+
 func c05AllBases() []*c05Base {
 	bs := c05Bases()
 	man := refcbor.EncText("https://ex.test/manifest.webmanifest")
 	// b2 with a manifest section ahead of index and primary; b1 with signatures/manifest ahead of index
-	bs = append(bs, c05Reordered("b2-man-first", bs[2], "manifest", man), c05Reordered("b1-reordered", bs[4], "", nil))
+	bs = append(bs, c05Reordered("b2-man-first", bs[2], "manifest", man), c05Reordered("b1-reordered", bs[4], "", nil), c05Polyglot())
 	return bs
 }
 
@@ -411,12 +428,19 @@ func init() {
 	gen := func(c *mc.Ctx) interface{} {
 		nb := len(c05BaseList)
 		if c.Quick() {
-			nb = 6
+			nb = 7
 		}
-		base := c05BaseList[[]int{1, 2, 3, 5, 6, 7, 0, 4}[c.Free(nb, "base")]]
+		base := c05BaseList[[]int{1, 2, 3, 5, 6, 7, 8, 0, 4}[c.Free(nb, "base")]]
 		file := base.file
-		kind := c.Dev(9, "mutation-kind")
+		kind := c.Dev(10, "mutation-kind")
 		switch kind {
+		case 9: // a length / offset / count head replaced by a well-delimited item of ANOTHER type
+			fi := c.Free(len(base.ref.Fields), "field")
+			f := base.ref.Fields[fi]
+			items := [][]byte{{0xf6}, {0xf4}, {0x20}, {0x3a, 0, 0, 0, 1}, {0x40}, {0x60}, {0x80}, {0xa0}, {0xc0, 0x00}, {0x1f}, {0xf9, 0x00, 0x00}}
+			it := items[c.Free(len(items), "item")]
+			out := append(append(append([]byte{}, file[:f.Off]...), it...), file[f.Off+f.Len:]...)
+			return &c05Case{input: out, base: base, op: fmt.Sprintf("field[%d %s] replaced by the item %s", fi, f.What, hx(it))}
 		case 0:
 			return &c05Case{input: file, base: base, op: "unmutated", mustAccept: true}
 		case 1: // one length / offset / count field replaced by a boundary value
@@ -651,7 +675,7 @@ func init() {
 	register(&mc.Property{
 		ID:          "C05",
 		Level:       "model_checking",
-		Rule:        "choice-tree enumeration of inputs to bundle.Read in watchdog-supervised workers: 6 (quick) / 8 (thorough) base bundles built by the reference encoder (b1/b2, 1-3 exchanges, primary/manifest/signatures sections, a b1 variants entry, two with the sections in an order the repository's writer never produces: manifest ahead of index in a b2 bundle, signatures/manifest ahead of index in b1) x one structure-aware mutation: every length/offset/count head of the reference's field map replaced by each of 9 boundary values (0, exact+-1, file size, 2^32, 2^63-1, 2^63, 2^64-1, exact+2^63; thorough: pairs of fields), truncation at every offset, every byte set to 8 values (quick: 00, ff, two bit flips, +1, '+', '-', space) / all 256 (thorough), offset/length pairs whose sum wraps around 2^64, an unknown section inserted consistently at every position (must be stepped over), the section table permuted / an entry duplicated / dropped, an unknown section listed without content. Oracle: refbx.Extract (location-strict, encoding-lenient). Non-trivial = the reference produced a verdict the reader had to match (content equality, must-refuse location, must-accept unknown section); distinct by input hash.",
+		Rule:        "choice-tree enumeration of inputs to bundle.Read in watchdog-supervised workers: 7 (quick) / 9 (thorough) base bundles built by the reference encoder (b1/b2, 1-3 exchanges, primary/manifest/signatures sections, a b1 variants entry, two with the sections in an order the repository's writer never produces: manifest ahead of index in a b2 bundle, signatures/manifest ahead of index in b1; one whose responses section is a single response item at offset 0) x one structure-aware mutation: every length/offset/count head replaced by a well-delimited item of another type (null, false, negative integers, empty strings / array / map, a tag, a reserved head, a float); every length/offset/count head of the reference's field map replaced by each of 9 boundary values (0, exact+-1, file size, 2^32, 2^63-1, 2^63, 2^64-1, exact+2^63; thorough: pairs of fields), truncation at every offset, every byte set to 8 values (quick: 00, ff, two bit flips, +1, '+', '-', space) / all 256 (thorough), offset/length pairs whose sum wraps around 2^64, an unknown section inserted consistently at every position (must be stepped over), the section table permuted / an entry duplicated / dropped, an unknown section listed without content. Oracle: refbx.Extract (location-strict, encoding-lenient). Non-trivial = the reference produced a verdict the reader had to match (content equality, must-refuse location, must-accept unknown section); distinct by input hash.",
 		Assumptions: []string{"refbx extracts at least what bundle.Read accepts (any well-formed CBOR head, any key order) and is exact about locations", "inputs the reference can extract but the reader refuses for its own stricter rules (URL syntax, header-name case, ASCII) are not judged", "header maps with duplicate names are not judged (the property does not say which value a reader returns)"},
 		Harnesses:   []*mc.Harness{h},
 		Guard: func(s map[string]*mc.Stats) error {
